@@ -256,6 +256,8 @@ func sortCallbacks(cs []*callback) (fns []func(*DB), err error) {
 	var (
 		names, sorted []string
 		sortCallback  func(*callback) error
+		// callbacks waiting for their `after` callback to be sorted, used to detect circular constraints
+		waiting = map[*callback]bool{}
 	)
 	sort.SliceStable(cs, func(i, j int) bool {
 		if cs[j].before == "*" && cs[i].before != "*" {
@@ -276,6 +278,10 @@ func sortCallbacks(cs []*callback) (fns []func(*DB), err error) {
 	}
 
 	sortCallback = func(c *callback) error {
+		if waiting[c] {
+			return fmt.Errorf("conflicting callback %s with after %s: circular dependency", c.name, c.after)
+		}
+
 		if c.before != "" { // if defined before callback
 			if c.before == "*" && len(sorted) > 0 {
 				if curIdx := getRIndex(sorted, c.name); curIdx == -1 {
@@ -315,7 +321,10 @@ func sortCallbacks(cs []*callback) (fns []func(*DB), err error) {
 					after.before = c.name
 				}
 
-				if err := sortCallback(after); err != nil {
+				waiting[c] = true
+				err := sortCallback(after)
+				delete(waiting, c)
+				if err != nil {
 					return err
 				}
 
